@@ -9,7 +9,7 @@ the rules look at.  Anything not recognised is left as the call it was (the clos
 
     Result:  map  map_err  and_then  or_else  unwrap_or_else  is_ok_and  is_err_and  map_or  inspect  inspect_err
     Option:  map  and_then  or_else  ok_or_else  unwrap_or_else  is_some_and  is_none_or  map_or  map_or_else  filter  inspect
-    bool:    then
+    bool:    then  then_some          Option::ok_or
     Iterator (consumers, as loops over `next`):  for_each  try_for_each  any  all  find_map  fold  try_fold
 """
 import copy
@@ -355,6 +355,98 @@ def _expand_one(fx, fn, bi, t, blocks, locals_):
         blocks[bi]["term"] = {"k": "goto", "target": b0, "span": t["span"], "expanded": o}
         return True
 
+    # ---------------- closure-less combinators that only re-wrap a decision ----------------
+    if o == "core::bool::<impl bool>::then_some" and len(args) == 2:
+        rl = recv_local()
+        if rl is None:
+            return False
+        l, pre = rl
+        b0 = B.block()
+        if pre is not None:
+            B.stmt(b0, l, pre)
+        tb, fb = B.block(), B.block()
+        B.switch_bool(b0, l, tb, fb)
+        B.wrap(tb, dest, OPT, "Some", args[1])
+        B.goto(tb, end)
+        B.wrap(fb, dest, OPT, "None", None)
+        B.goto(fb, end)
+        blocks[bi]["term"] = {"k": "goto", "target": b0, "span": t["span"], "expanded": o}
+        return True
+    if o == O + "ok_or" and len(args) == 2:
+        st = start("opt")
+        if st is None:
+            return False
+        r, (T,), b0 = st
+        some_b, none_b = B.block(), B.block()
+        B.switch_discr(b0, r, OPT, OPT_V, tys[0], {"Some": some_b, "None": none_b})
+        x = B.local(T)
+        B.payload(some_b, x, r, "Some")
+        B.wrap(some_b, dest, RES, "Ok", {"mv": {"l": x}})
+        B.goto(some_b, end)
+        B.wrap(none_b, dest, RES, "Err", args[1])
+        B.goto(none_b, end)
+        blocks[bi]["term"] = {"k": "goto", "target": b0, "span": t["span"], "expanded": o}
+        return True
+
+    if o in ("core::option::Option::<core::result::Result<T, E>>::transpose",
+             "core::result::Result::<core::option::Option<T>, E>::transpose") and len(args) == 1:
+        rl = recv_local()
+        if rl is None:
+            return False
+        l, pre = rl
+        b0 = B.block()
+        if pre is not None:
+            B.stmt(b0, l, pre)
+        h, ga = split_generics(tys[0] if tys else "")
+        if h == OPT and len(ga) == 1 and split_generics(ga[0])[0] == RES:
+            T_, E_ = (split_generics(ga[0])[1] + ["?", "?"])[:2]
+            some_b, none_b = B.block(), B.block()
+            B.switch_discr(b0, l, OPT, OPT_V, tys[0], {"Some": some_b, "None": none_b})
+            n_ = B.local("%s<%s>" % (OPT, T_))
+            B.wrap(none_b, n_, OPT, "None", None)
+            B.wrap(none_b, dest, RES, "Ok", {"mv": {"l": n_}})
+            B.goto(none_b, end)
+            inner = B.local(ga[0])
+            B.payload(some_b, inner, l, "Some")
+            ok_b, err_b = B.block(), B.block()
+            B.switch_discr(some_b, inner, RES, RES_V, ga[0], {"Ok": ok_b, "Err": err_b})
+            x, e = B.local(T_), B.local(E_)
+            B.payload(ok_b, x, inner, "Ok")
+            s_ = B.local("%s<%s>" % (OPT, T_))
+            B.wrap(ok_b, s_, OPT, "Some", {"mv": {"l": x}})
+            B.wrap(ok_b, dest, RES, "Ok", {"mv": {"l": s_}})
+            B.goto(ok_b, end)
+            B.payload(err_b, e, inner, "Err")
+            B.wrap(err_b, dest, RES, "Err", {"mv": {"l": e}})
+            B.goto(err_b, end)
+        elif h == RES and len(ga) == 2 and split_generics(ga[0])[0] == OPT:
+            T_ = (split_generics(ga[0])[1] + ["?"])[0]
+            E_ = ga[1]
+            ok_b, err_b = B.block(), B.block()
+            B.switch_discr(b0, l, RES, RES_V, tys[0], {"Ok": ok_b, "Err": err_b})
+            e = B.local(E_)
+            B.payload(err_b, e, l, "Err")
+            r_ = B.local("%s<%s, %s>" % (RES, T_, E_))
+            B.wrap(err_b, r_, RES, "Err", {"mv": {"l": e}})
+            B.wrap(err_b, dest, OPT, "Some", {"mv": {"l": r_}})
+            B.goto(err_b, end)
+            inner = B.local(ga[0])
+            B.payload(ok_b, inner, l, "Ok")
+            some_b, none_b = B.block(), B.block()
+            B.switch_discr(ok_b, inner, OPT, OPT_V, ga[0], {"Some": some_b, "None": none_b})
+            x = B.local(T_)
+            B.payload(some_b, x, inner, "Some")
+            r2 = B.local("%s<%s, %s>" % (RES, T_, E_))
+            B.wrap(some_b, r2, RES, "Ok", {"mv": {"l": x}})
+            B.wrap(some_b, dest, OPT, "Some", {"mv": {"l": r2}})
+            B.goto(some_b, end)
+            B.wrap(none_b, dest, OPT, "None", None)
+            B.goto(none_b, end)
+        else:
+            return False
+        blocks[bi]["term"] = {"k": "goto", "target": b0, "span": t["span"], "expanded": o}
+        return True
+
     # ---------------- two-closure and by-reference Option/Result combinators ----------------
     if o in (O + "map_or_else", R + "map_or_else") and len(args) == 3:
         is_res = o.startswith(R)
@@ -623,7 +715,8 @@ def _expand_nocache(fx, fn):
         if t["k"] != "call" or b.get("cleanup"):
             continue
         o = (t.get("fn") or {}).get("orig") or ""
-        if not (o.startswith((R, O, I)) or o == "core::bool::<impl bool>::then"):
+        if not o.startswith((R, O, I, "core::bool::<impl bool>::", "core::option::Option::<core::result::Result",
+                             "core::result::Result::<core::option::Option")):
             continue
         try:
             if _expand_one(fx, tmp, bi, t, blocks, locals_):
@@ -652,7 +745,8 @@ def expanded(fx, fn):
         t = b["term"]
         if t["k"] == "call" and not b.get("cleanup"):
             o = (t.get("fn") or {}).get("orig") or ""
-            if o.startswith((R, O, I)) or o == "core::bool::<impl bool>::then":
+            if o.startswith((R, O, I, "core::bool::<impl bool>::", "core::option::Option::<core::result::Result",
+                             "core::result::Result::<core::option::Option")):
                 hit = True
                 break
     if not hit:
